@@ -226,8 +226,9 @@ pub fn start_watchdog(prop: &'static str) {
         let s = WD_SLOTS.lock().unwrap();
         for (_, t, d) in s.iter() {
             if t.elapsed() > Duration::from_secs(lim) {
-                let path = format!("/verif/replays/{}-hang.json", prop);
-                let _ = std::fs::create_dir_all("/verif/replays");
+                let root = std::env::var("VERIF_OUT").unwrap_or_else(|_| "/verif".to_string());
+                let path = format!("{}/replays/{}-hang.json", root, prop);
+                let _ = std::fs::create_dir_all(format!("{}/replays", root));
                 let _ = std::fs::write(
                     &path,
                     serde_json::to_string_pretty(&json!({
@@ -271,6 +272,12 @@ pub trait Sys: Clone {
     fn outcome(&self) -> String {
         String::new()
     }
+    /// Hidden-state probe: called on an object whose key was already known when it was produced
+    /// (a self-loop or a merge). It should run a canonical continuation from THIS object under the
+    /// full oracles, so that state the fingerprint does not show still cannot hide a defect.
+    fn probe(&self) -> Result<(), (String, String)> {
+        Ok(())
+    }
 }
 
 pub struct Found<A> {
@@ -280,6 +287,7 @@ pub struct Found<A> {
 }
 
 pub struct Explored<S: Sys> {
+    pub probes: u64,
     pub states: u64,
     pub transitions: u64,
     pub max_depth: u64,
@@ -303,6 +311,10 @@ pub struct Limits {
     pub keep_state_traces: usize,
     /// require that every reachable state can still reach a final state (no livelock / dead end)
     pub check_coreach: bool,
+    /// hidden-state probing: 0 = off; n > 0 = probe every self-loop and every n-th merge
+    pub probe_every: u32,
+    /// depth-first instead of breadth-first (same state set; small frontier, traces not shortest)
+    pub dfs: bool,
 }
 
 impl Default for Limits {
@@ -313,6 +325,8 @@ impl Default for Limits {
             max_found: 8,
             keep_state_traces: 4,
             check_coreach: false,
+            probe_every: 0,
+            dfs: false,
         }
     }
 }
@@ -343,7 +357,9 @@ pub fn explore<S: Sys>(init: S, lim: &Limits) -> Explored<S> {
     let mut seen: HashMap<String, u32> = HashMap::new();
     let mut nodes: Vec<Node<S::Act>> = Vec::new();
     let mut queue: VecDeque<(u32, S)> = VecDeque::new();
+    let mut merges: u32 = 0;
     let mut out = Explored::<S> {
+        probes: 0,
         states: 0,
         transitions: 0,
         max_depth: 0,
@@ -368,7 +384,7 @@ pub fn explore<S: Sys>(init: S, lim: &Limits) -> Explored<S> {
     });
     queue.push_back((0, init));
 
-    while let Some((idx, st)) = queue.pop_front() {
+    while let Some((idx, st)) = if lim.dfs { queue.pop_back() } else { queue.pop_front() } {
         out.states += 1;
         let depth = nodes[idx as usize].depth;
         out.max_depth = out.max_depth.max(depth as u64);
@@ -453,6 +469,24 @@ pub fn explore<S: Sys>(init: S, lim: &Limits) -> Explored<S> {
                         Some(&ti) => {
                             if lim.check_coreach && ti != idx {
                                 edges.push((idx, ti));
+                            }
+                            if lim.probe_every > 0 {
+                                merges += 1;
+                                if ti == idx || merges % lim.probe_every == 0 {
+                                    out.probes += 1;
+                                    let pr = match guarded(|| nx.probe()) {
+                                        Ok(r) => r,
+                                        Err(p) => Err((format!("panic:{}", panic_site(&p)), p)),
+                                    };
+                                    if let Err((key, what)) = pr {
+                                        let key = format!("{}:after-noop-call", key);
+                                        if found_keys.insert(key.clone()) && out.found.len() < lim.max_found {
+                                            let mut t = trace_of(&nodes, idx);
+                                            t.push(a);
+                                            out.found.push(Found { key, what: format!("{} [continuing canonically after a call that left the visible state unchanged]", what), trace: t });
+                                        }
+                                    }
+                                }
                             }
                         }
                         None => {
@@ -602,6 +636,27 @@ pub fn replay_trace<S: Sys>(mut s: S, trace: &[S::Act]) -> Result<S, (String, St
         s.final_check()?;
     }
     Ok(s)
+}
+
+/// Replay-path validation for sweep-style checks: a case that held in the sweep is serialised the
+/// way a violation would be, pushed through the property's `replay` entry point (fresh objects,
+/// no sweep machinery) and must hold there too. A disagreement is a machinery failure.
+pub fn validate_case(rep: &mut Report, replay: fn(&Value) -> Result<Option<String>, String>, case: Value) {
+    match guarded(|| replay(&case)) {
+        Ok(Ok(None)) => rep.traces_validated += 1,
+        Ok(Ok(Some(w))) => {
+            eprintln!("machinery: replay divergence: a case that held in the sweep fails when replayed: {} [{}]", w, case);
+            std::process::exit(2);
+        }
+        Ok(Err(e)) => {
+            eprintln!("machinery: case cannot be replayed: {} [{}]", e, case);
+            std::process::exit(2);
+        }
+        Err(p) => {
+            eprintln!("machinery: replay panicked: {} [{}]", p, case);
+            std::process::exit(2);
+        }
+    }
 }
 
 // ------------------------------------------------------------------------------------------
